@@ -55,8 +55,9 @@ package PVM
 //@   spec pvm.smt2
 //@   key op uint8 10
 //@   requires nonnil: interp != nil && instr != nil
+//@   requires imm: uint64(int64(int32(instr.Imm[0]))) == instr.Imm[0]
 //@   ensures kind: uint64(result0) >> 56 == 5
-//@   ensures id: uint64(result0) & 0x00ffffffffffffff == instr.Imm[0] && result1 == instr.PC
+//@   ensures id: result0.GetHostCallIndex() == instr.Imm[0] && result1 == instr.PC
 //@   ensures frame: frame_only()
 
 //@ table instrMetaExecForOpcode condbranch
